@@ -156,6 +156,8 @@ META = (META[0] + ' STALEREP (an element cached as the representative of the cur
 
 META = (META[0] + ' PREVBOUND (a loop that stops at `!= prev(last)` knows the range is not empty; controls in fixtures/extra8_pos.hpp).', META[1])
 
+META = (META[0] + ' PREFIXWIN (a search of the already visited prefix inside a loop starts where the loop started).', META[1])
+
 
 def run(chk, tier):
     db = D.load("checks")
@@ -171,6 +173,9 @@ def run(chk, tier):
     from ..rules import extra8 as _X8
     _X8.dist_guard_area(chk, db, ['_algorithm/', '_numeric/'])      # DISTGUARD
     _X8.positive_controls(chk, D, ('DISTGUARD', 'STALEREP', 'PREVBOUND'))
+    from ..rules import extra9 as _X9
+    if _X9.prefix_window_area(chk, db, ['_algorithm/', '_numeric/']) < 1:      # PREFIXWIN
+        chk.unknown_instance('PREFIXWIN', 'etl::is_permutation', 'no search of the visited prefix inside a loop found')
     _X8.prev_bound_area(chk, db, ['_algorithm/', '_numeric/'])      # PREVBOUND
     _X8.stale_rep_area(chk, db, ['_algorithm/', '_numeric/'])      # STALEREP (zero expected on the library)
     if _X8.self_move_area(chk, db, ['_algorithm/']) < 3:      # SELFMOVE
